@@ -31,7 +31,7 @@ def oracle_part(ctx: vlib.Ctx, n: int, label="oracle"):
     r = ctx.rng
     t0 = time.time()
     stats = {"ok": 0, "genfail": 0, "fail": 0, "refs": 0, "defs": 0, "docs": 0}
-    deadline = t0 + (60 if ctx.quick() else 480)
+    deadline = t0 + (50 if ctx.quick() else 480)
     done = 0
     for i in range(n):
         if time.time() > deadline:
@@ -101,6 +101,7 @@ DEGENERATE_SRC = (
     "import collections, enum\nfrom dataclasses import dataclass, field, InitVar\nfrom typing import *\n"
     "from typing_extensions import TypedDict\nfrom mashumaro.config import BaseConfig\nfrom mashumaro import field_options\n"
     "class NT0(NamedTuple):\n    pass\n"
+    "class NTS(NamedTuple):\n    a: 'Dict[str, int]' = None\n    b: 'Optional[E0]' = None\n    c: 'Tuple[()]' = ()\n    d: 'NT0' = NT0()\n"
     "CN0 = collections.namedtuple('CN0', [])\n"
     "class TD0(TypedDict):\n    pass\n"
     "class TD0n(TypedDict, total=False):\n    pass\n"
@@ -118,7 +119,7 @@ DEGENERATE_SRC = (
     "WN = NewType('WN', NT0)\n"
     "@dataclass\nclass HF:\n    a: Final[NT0]\n    b: Final[int] = 1\n    c: Final[List[DC0]] = field(default_factory=list)\n"
     "    d: Final[Optional[WN]] = None\n    e: Final[Any] = None\n")
-DEGENERATE_BASES = ["NT0", "CN0", "TD0", "TD0n", "E0", "F0", "DC0", "DCV", "G0", "G0[int]", "HL", "HD", "HF", "WN", "Tuple[()]", "tuple", "list", "dict",
+DEGENERATE_BASES = ["NTS", "NT0", "CN0", "TD0", "TD0n", "E0", "F0", "DC0", "DCV", "G0", "G0[int]", "HL", "HD", "HF", "WN", "Tuple[()]", "tuple", "list", "dict",
                     "List", "Dict", "Sequence[Any]", "Literal[None]", "Any", "Tuple[Any, ...]", "collections.Counter", "frozenset", "Set"]
 DEGENERATE_WRAPS = ["{}", "List[{}]", "Optional[{}]", "Tuple[{}, int]", "Tuple[{}, ...]", "Dict[str, {}]", "Union[{}, int]"]
 
@@ -197,13 +198,13 @@ def defaults_part(ctx: vlib.Ctx):
 
 # types that live in ANOTHER module: string annotations resolvable only there (NamedTuple / TypedDict / dataclass), and a third-party
 # type that is serializable only through a strategy (from Config, from Config.dialect, from both), with defaults of every form
-LIB_HEAD = ("import __C20_LIB__ as lib\nfrom __C20_LIB__ import LNT, LTD, LD, Pt\nfrom dataclasses import dataclass, field\nfrom typing import *\n"
+LIB_HEAD = ("import __C20_LIB__ as lib\nfrom __C20_LIB__ import LNT, LNTd, LTD, LD, Pt\nfrom dataclasses import dataclass, field\nfrom typing import *\n"
             "from mashumaro.config import BaseConfig, ADD_DIALECT_SUPPORT\nfrom mashumaro.dialect import Dialect\nfrom mashumaro import DataClassDictMixin\n"
             "def ser_str(v) -> str:\n    return str(v)\n"
             "class DP(Dialect):\n    serialization_strategy = {Pt: lib.PT_STRATEGY}\n"
             "class DPo(Dialect):\n    omit_none = True\n    omit_default = True\n    serialize_by_alias = True\n    serialization_strategy = {Pt: lib.PT_STRATEGY}\n"
             "class DI(Dialect):\n    serialization_strategy = {int: {'serialize': ser_str}}\n")
-XMOD_FORMS = ["LNT", "List[LNT]", "Optional[LNT]", "Tuple[LNT, ...]", "Dict[str, LNT]", "Tuple[LNT, int]", "Union[LNT, int]", "Final[LNT]",
+XMOD_FORMS = ["LNTd", "List[LNTd]", "Optional[LNTd]", "LNT", "List[LNT]", "Optional[LNT]", "Tuple[LNT, ...]", "Dict[str, LNT]", "Tuple[LNT, int]", "Union[LNT, int]", "Final[LNT]",
               "LTD", "List[LTD]", "LD", "Optional[LD]", "Dict[str, List[LD]]"]
 TP_FORMS = [("Pt", "Pt(1)"), ("Optional[Pt]", "None"), ("Optional[Pt]", "Pt(2)"), ("Tuple[Pt, ...]", "(Pt(1), Pt())"), ("Tuple[Pt, int]", "(Pt(3), 1)"),
             ("List[Pt]", "field(default_factory=list)"), ("Dict[str, Pt]", "field(default_factory=dict)"), ("Union[Pt, None, int]", "Pt(4)"),
